@@ -18,7 +18,15 @@ PART = "C02_spans"
 RULE = ("spans: every node of every accepted generated / fixture document, value and type; distinct = distinct "
         "(node kind, spanned text); non-trivial = node with >= 2 tokens whose span was re-parsed with the matching "
         "entry point")
-ASSUMPTIONS = ["a node is re-parsed with the Parser method that produced it (public Parser.parse_* methods); "
+ASSUMPTIONS = [
+    "\\uXXXX escapes: June-2018 (2.9.4) defines \\u EscapedUnicode as a 16-bit CODE UNIT and the string value as the "
+    "character sequence of the units; reading chosen: the unit sequence is UTF-16, i.e. a high-surrogate escape directly "
+    "followed by a low-surrogate escape denotes ONE astral character (as in JSON / graphql-js >= 16 / the 2021 spec text), "
+    "an unpaired surrogate escape stays a lone code point (Python str can hold it; it is not UTF-8 encodable, which "
+    "concerns C10's strict JSON, not parsing)",
+    "Document span: the property's 'first token .. last token' is read LITERALLY for the oracle (first/last lexical "
+    "token); the code (and the Lean view `documentV`) count the lexer's synthetic <SOF>/<EOF> as the Document's first and "
+    "last tokens, giving (0, len(text)) - finding P5, pinned by 15 tests","a node is re-parsed with the Parser method that produced it (public Parser.parse_* methods); "
                "constant-ness is not part of a node, the re-parse uses const=False (a superset)"]
 TRUSTED = []
 
@@ -133,6 +141,13 @@ def check_tree(ctx, text, entry, flags, root, origin):
             if (a, b) != (0, toks[-1].end):
                 ctx.fail("document-span", "Document.loc is not (0, end of text after ignored characters)", det(n))
                 ok = False
+            real_toks = toks[1:-1]
+            if real_toks and (a, b) != (real_toks[0].start, real_toks[-1].end):
+                # literal reading of the statement: first character of the first token .. end of the last token
+                ctx.fail("document-span-includes-ignored",
+                         "Document.loc includes leading / trailing ignored text (it is (SOF.start, EOF.end))",
+                         dict(det(n), text=(" {a} " if len(text) > 200 else text), entry="document"))
+                ok = False
         elif a not in starts or b not in ends or not a < b:
             ctx.fail("span-not-on-token-boundaries:%s" % kind, "loc does not start/end on token boundaries", det(n))
             ok = False
@@ -156,6 +171,22 @@ def check_tree(ctx, text, entry, flags, root, origin):
             # the only legal overlap: NamedType/Variable... no: a child never overlaps a sibling
             if y0 < x1:
                 ctx.fail("sibling-spans-overlap:%s" % kind, "two children of a node have overlapping spans", det(n))
+                ok = False
+        # decoded value of a quoted string = the UTF-16 reading of its escapes (reference: JSON string decoding,
+        # of which GraphQL's quoted-string escapes are a subset)
+        if kind == "StringValue" and not n.block:
+            lexeme = text[a:b]
+            try:
+                import json as _json
+                want_s = _json.loads(lexeme, strict=False)
+            except Exception:
+                want_s = None
+            if want_s is not None and want_s != n.value:
+                pair = any(0xD800 <= ord(x) <= 0xDBFF and 0xDC00 <= ord(y) <= 0xDFFF for x, y in zip(n.value, n.value[1:]))
+                ctx.fail("string-escape-decoding:%s" % ("surrogate-pair-not-combined" if pair else "other"),
+                         "a quoted string's escapes do not decode to the UTF-16 reading of the code units",
+                         dict(det(n), text=lexeme, entry="value", loc=None,
+                              got=[ord(c) for c in n.value], want=[ord(c) for c in want_s]))
                 ok = False
         # THE statement: the spanned text parses back to an equal node
         piece = text[a:b]
